@@ -82,6 +82,8 @@ func (b *proxyIDRingBuffer) Append(proxyID int64, sourceShard history.ClusterSha
 				}
 				expected++
 			}
+			// the hole-filling loop may have filled the buffer; make room for the real entry
+			b.ensureCapacity()
 		}
 	}
 	pos := (b.head + b.size) % len(b.entries)
